@@ -477,3 +477,18 @@ Fixpoint serve_all (cfg : rcfg) (l : list input) : rcfg * list (result err (resp
   | i :: r => let '(cfg1, o) := serve cfg i in
               let '(cfg2, os) := serve_all cfg1 r in (cfg2, o :: os)
   end.
+
+(* ---------------- the configuration as the operator wrote it (fifth round) ----------------
+   The `cidr` field of override_subnet / excluded_subnet_from_overrides is decoded by
+   Ipnet.UnmarshalText = net.ParseCIDR: the text "a.b.c.d/n" (any address, host bits set or
+   not) denotes the network obtained by MASKING the written address, and the IPNet kept is
+   (masked base, n).  getRandUint32IPv4 adds an offset below 2^(32-n) to IPNet.IP, so it relies on
+   the stored address being the masked base. *)
+Definition mask_base (written ones : N) : N := written / 2 ^ (32 - ones) * 2 ^ (32 - ones).
+Definition cidr_of_text (written ones : N) : N * N := (mask_base written ones, ones).
+(* refuted variant: the address is stored as written *)
+Definition cidr_keep_hostbits (written ones : N) : N * N := (written, ones).
+Definition sub_of_cidr (c : N * N) (w port : N) : subnet := mkSub true (fst c) (snd c) w port.
+Definition sub_of_text (written ones w port : N) : subnet := sub_of_cidr (cidr_of_text written ones) w port.
+(* the network the operator's text denotes: the addresses that agree with the written one on the first n bits *)
+Definition in_written_net (written ones a : N) : Prop := a / 2 ^ (32 - ones) = written / 2 ^ (32 - ones).
